@@ -1,202 +1,212 @@
 /-
 C36 — Concurrent read-only sessions are isolated; shared registries stay consistent.
-(Data-race freedom itself is a property of the Go memory model: it is validated by race-detector
-runs of the harness, not proved — see DESIGN.md §6 C36.)
+
+Proved here, for the interleaving model `Gms.NonInterf` (every schedule, any number of sessions,
+any programs): the store is never written; what a session observes is a function of its own steps
+only (projection onto the session run alone); the shared registries equal the sums of the
+sessions' own counters at every moment; complete schedules give every session exactly the results
+of running its program alone, statement by statement; schedules with the same per-session step
+counts end in the same state; fair schedules finish.
+
+Data-race freedom itself is a property of the Go memory model: the logic part is the lockset
+argument over the access footprint (`race_free_partial`, with the listed finding
+`finding_infoschema_assign_catalog_race`), the race-detector runs of the harness validate the
+footprint — see DESIGN.md §6 C36.
 -/
 import Gms.Model.NonInterf
+import Gms.Lemmas.NonInterf
 import Gms.Generated.C36
-
-namespace Gms.NonInterf
-variable {Db R : Type}
-
-theorem cnt_upd (p : Phase → Bool) (f : Nat → Phase) (i : Nat) (v : Phase) (n : Nat) :
-    cnt p (upd f i v) n + (if i < n ∧ p (f i) then 1 else 0)
-      = cnt p f n + (if i < n ∧ p v then 1 else 0) := by
-  induction n with
-  | zero => simp [cnt]
-  | succ n ih =>
-    simp only [cnt]
-    by_cases h : n = i
-    · subst h
-      have e1 : cnt p (upd f n v) n = cnt p f n := by
-        have := ih
-        simp at this
-        exact this
-      simp [upd, e1]
-      cases p (f n) <;> cases p v <;> simp <;> omega
-    · have hlt : (i < n + 1) = (i < n) := by
-        apply propext; constructor <;> intro hh <;> omega
-      simp only [upd, h, if_false, hlt]
-      omega
-
-structure Inv (n : Nat) (q : Nat → Db → R) (db : Db) (s : St Db R) : Prop where
-  db_eq : s.db = db
-  res : ∀ i r, s.result i = some r → r = q i db
-  resPhase : ∀ i, (s.phase i = .evaluated ∨ s.phase i = .done) → s.result i = some (q i db)
-  questions : s.questions = cnt (fun ph => ph != .idle) s.phase n
-  running : s.running = cnt (fun ph => ph == .began || ph == .evaluated) s.phase n
-  comSelect : s.comSelect = cnt (fun ph => ph == .evaluated || ph == .done) s.phase n
-
-theorem cnt_const_false (p : Phase → Bool) (f : Nat → Phase) (n : Nat) (h : ∀ i, p (f i) = false) :
-    cnt p f n = 0 := by
-  induction n with
-  | zero => rfl
-  | succ n ih => simp [cnt, ih, h]
-
-theorem inv_init (n : Nat) (q : Nat → Db → R) (db : Db) : Inv n q db (init db) := by
-  constructor
-  · rfl
-  · intro i r h; simp [init] at h
-  · intro i h; simp [init] at h
-  · simp [init]; rw [cnt_const_false]; intro i; rfl
-  · simp [init]; rw [cnt_const_false]; intro i; rfl
-  · simp [init]; rw [cnt_const_false]; intro i; rfl
-
-theorem inv_step (n : Nat) (q : Nat → Db → R) (db : Db) (s : St Db R) (e : Ev)
-    (h : Inv n q db s) : Inv n q db (step n q s e) := by
-  obtain ⟨hdb, hres, hrp, hq, hr, hc⟩ := h
-  cases e with
-  | begin i =>
-    simp only [step]
-    split
-    · rename_i hg
-      obtain ⟨hi, hph⟩ := hg
-      have k1 := cnt_upd (fun ph => ph != .idle) s.phase i .began n
-      have k2 := cnt_upd (fun ph => ph == .began || ph == .evaluated) s.phase i .began n
-      have k3 := cnt_upd (fun ph => ph == .evaluated || ph == .done) s.phase i .began n
-      simp [hi, hph] at k1 k2 k3
-      refine ⟨hdb, hres, ?_, ?_, ?_, ?_⟩
-      · intro j hj
-        simp only [upd] at hj
-        by_cases hji : j = i
-        · simp [hji] at hj
-        · simp only [hji, if_false] at hj; exact hrp j hj
-      · simp only; omega
-      · simp only; omega
-      · simp only; omega
-    · exact ⟨hdb, hres, hrp, hq, hr, hc⟩
-  | eval i =>
-    simp only [step]
-    split
-    · rename_i hg
-      obtain ⟨hi, hph⟩ := hg
-      have k1 := cnt_upd (fun ph => ph != .idle) s.phase i .evaluated n
-      have k2 := cnt_upd (fun ph => ph == .began || ph == .evaluated) s.phase i .evaluated n
-      have k3 := cnt_upd (fun ph => ph == .evaluated || ph == .done) s.phase i .evaluated n
-      simp [hi, hph] at k1 k2 k3
-      refine ⟨hdb, ?_, ?_, ?_, ?_, ?_⟩
-      · intro j r hj
-        simp only [upd] at hj
-        by_cases hji : j = i
-        · simp only [hji, if_true, Option.some.injEq] at hj
-          rw [← hj, hdb, hji]
-        · simp only [hji, if_false] at hj; exact hres j r hj
-      · intro j hj
-        simp only [upd] at hj ⊢
-        by_cases hji : j = i
-        · simp [hji, hdb]
-        · simp only [hji, if_false] at hj ⊢; exact hrp j hj
-      · simp only; omega
-      · simp only; omega
-      · simp only; omega
-    · exact ⟨hdb, hres, hrp, hq, hr, hc⟩
-  | finish i =>
-    simp only [step]
-    split
-    · rename_i hg
-      obtain ⟨hi, hph⟩ := hg
-      have k1 := cnt_upd (fun ph => ph != .idle) s.phase i .done n
-      have k2 := cnt_upd (fun ph => ph == .began || ph == .evaluated) s.phase i .done n
-      have k3 := cnt_upd (fun ph => ph == .evaluated || ph == .done) s.phase i .done n
-      simp [hi, hph] at k1 k2 k3
-      refine ⟨hdb, hres, ?_, ?_, ?_, ?_⟩
-      · intro j hj
-        simp only [upd] at hj
-        by_cases hji : j = i
-        · subst hji; exact hrp j (Or.inl hph)
-        · simp only [hji, if_false] at hj; exact hrp j hj
-      · simp only; omega
-      · simp only; omega
-      · simp only; omega
-    · exact ⟨hdb, hres, hrp, hq, hr, hc⟩
-
-theorem inv_run (n : Nat) (q : Nat → Db → R) (db : Db) (evs : List Ev) : Inv n q db (run n q db evs) := by
-  unfold run
-  suffices H : ∀ s, Inv n q db s → Inv n q db (evs.foldl (step n q) s) from H _ (inv_init n q db)
-  induction evs with
-  | nil => intro s h; exact h
-  | cons e evs ih => intro s h; exact ih _ (inv_step n q db s e h)
-
-theorem cnt_all (p : Phase → Bool) (f : Nat → Phase) (n : Nat) (h : ∀ i, i < n → p (f i) = true) :
-    cnt p f n = n := by
-  induction n with
-  | zero => rfl
-  | succ n ih =>
-    simp only [cnt]
-    rw [ih (fun i hi => h i (by omega)), h n (by omega)]
-    simp
-
-theorem cnt_none (p : Phase → Bool) (f : Nat → Phase) (n : Nat) (h : ∀ i, i < n → p (f i) = false) :
-    cnt p f n = 0 := by
-  induction n with
-  | zero => rfl
-  | succ n ih =>
-    simp only [cnt]
-    rw [ih (fun i hi => h i (by omega)), h n (by omega)]
-    simp
-
-end Gms.NonInterf
 
 namespace Gms.C36
 open Gms.NonInterf
-variable {Db R : Type}
+variable {Db : Type}
 
-/-- Facts re-read from the source: the status counters are atomic, the process list guards its
-maps with one mutex in every exported method, `Questions`/`Com_select` are incremented through
-`IncrementStatusVariable`. -/
+/-- Facts re-read from the source on every run: which methods of the shared registries take the
+receiver's mutex (every ProcessList method does), the status counters are `atomic.Uint64` updated
+by `Add`/`Store`/`Load`, `IncrementStatusVariable` updates the global and the session's own
+counter, a session gets fresh counters, `QueryWithBindings` counts `Questions` first and
+`Com_select` for SELECT nodes, `BeginQuery`/`EndQuery` move `Threads_running` by ±1, the handler
+brackets the query with `BeginQuery` / deferred `EndQuery`. -/
 theorem facts_match :
-    Gms.Generated.C36.statusValueIsAtomic = true ∧ Gms.Generated.C36.processListMethodsUnlocked = [] ∧
-    Gms.Generated.C36.questionsIncrementedInQuery = true := by decide
+    Gms.Generated.C36.processListMethodsUnlocked = [] ∧
+    Gms.Generated.C36.processListMethodsLocked =
+      ["AddConnection", "AddPartitionProgress", "AddTableProgress", "BeginOperation", "BeginQuery", "ConnectionReady",
+       "EndOperation", "EndQuery", "Kill", "Processes", "RemoveConnection", "RemovePartitionProgress", "RemoveTableProgress",
+       "UpdatePartitionProgress", "UpdateTableProgress"] ∧
+    Gms.Generated.C36.memoryManagerMethodsLocked = ["Free", "NumCaches", "addCache", "removeCache"] ∧
+    Gms.Generated.C36.memoryManagerMethodsUnlocked = ["HasAvailable", "NewHistoryCache", "NewLRUCache", "NewRows2Cache", "NewRowsCache"] ∧
+    Gms.Generated.C36.catalogMethodsLocked = ["CreateDatabase", "LockTable", "RemoveDatabase", "Table", "TableAsOf", "TableSchema", "UnlockTables"] ∧
+    Gms.Generated.C36.statusValueType = "*atomic.Uint64" ∧
+    Gms.Generated.C36.statusValueIncrementCalls = ["s.Val.Add"] ∧
+    Gms.Generated.C36.statusValueSetCalls = ["s.Val.Store"] ∧
+    Gms.Generated.C36.statusValueValueCalls = ["s.Val.Load"] ∧
+    Gms.Generated.C36.incrementStatusVariableCalls = ["StatusVariables.IncrementGlobal", "ctx.Session.IncrementStatusVariable"] ∧
+    Gms.Generated.C36.sessionStatusMapFreshValue = true ∧
+    Gms.Generated.C36.queryCounters =
+      [("Questions", "1", ""), ("Com_select", "1", "plan.NodeRepresentsSelect(ctx, analyzed)")] ∧
+    Gms.Generated.C36.queryFirstStatement = "sql.IncrementStatusVariable(ctx, \"Questions\", 1)" ∧
+    Gms.Generated.C36.threadsRunningEffects = [("BeginQuery", "1"), ("EndQuery", "-1")] ∧
+    Gms.Generated.C36.handlerBracket = ["BeginQuery", "defer EndQuery"] := by decide
 
-/-- Isolation (non-interference), for every interleaving of the steps of any number of read-only
-queries: the store is never changed and every result produced is the result of running that query
-alone on the store. -/
-theorem readonly_noninterference (n : Nat) (q : Nat → Db → R) (db : Db) (evs : List Ev) :
-    (run n q db evs).db = db ∧ ∀ i r, (run n q db evs).result i = some r → r = q i db := by
-  have h := inv_run n q db evs
-  exact ⟨h.db_eq, h.res⟩
+/-- The listed finding's code shape, re-read on every run: `AssignCatalog` of the shared
+information_schema table object is a plain field assignment, called from `buildResolvedTable`. -/
+theorem facts_match_finding :
+    Gms.Generated.C36.infoSchemaAssignCatalogBody = ["t.catalog = cat", "return t"] ∧
+    Gms.Generated.C36.buildResolvedTableAssignsCatalog = true := by decide
 
-/-- Every query that was evaluated has its (sequential) result recorded. -/
-theorem evaluated_has_result (n : Nat) (q : Nat → Db → R) (db : Db) (evs : List Ev) (i : Nat)
-    (h : (run n q db evs).phase i = .evaluated ∨ (run n q db evs).phase i = .done) :
-    (run n q db evs).result i = some (q i db) :=
-  (inv_run n q db evs).resPhase i h
+/-- **Isolation (non-interference).** For every schedule of any number of sessions running any
+read-only programs: the store is never changed, and the complete state of session `i` (its
+variables, current database, warnings, own counters, every result it has received, its position)
+is exactly the state of that session run ALONE for as many steps as it took in the schedule —
+nothing another session does is visible to it. -/
+theorem readonly_noninterference (n : Nat) (progs : Nat → List (Stmt Db)) (db : Db) (evs : List Nat) :
+    (run n progs db evs).db = db ∧
+    ∀ i, i < n → (run n progs db evs).sess i = solo db (progs i) (occ i evs) := by
+  constructor
+  · exact foldl_db n progs evs (init db)
+  · intro i hi
+    rw [solo_eq_lsteps]
+    exact foldl_sess n progs evs (init db) i hi
 
-/-- Registries are consistent at every moment of every schedule: the counters equal the number
-of queries in the corresponding phases. -/
-theorem registries_consistent (n : Nat) (q : Nat → Db → R) (db : Db) (evs : List Ev) :
-    let s := run n q db evs
-    s.questions = cnt (fun ph => ph != .idle) s.phase n ∧
-    s.running = cnt (fun ph => ph == .began || ph == .evaluated) s.phase n ∧
-    s.comSelect = cnt (fun ph => ph == .evaluated || ph == .done) s.phase n := by
-  have h := inv_run n q db evs
-  exact ⟨h.questions, h.running, h.comSelect⟩
+/-- Sessions that do not exist are never touched. -/
+theorem outside_sessions_untouched (n : Nat) (progs : Nat → List (Stmt Db)) (db : Db) (evs : List Nat) (i : Nat)
+    (hi : ¬ i < n) : (run n progs db evs).sess i = initSess :=
+  foldl_sess_ge n progs evs (init db) i hi
 
-/-- At quiescence (all `n` queries done), whatever the schedule was: `Questions` and
-`Com_select` grew by exactly `n` and `Threads_running` is back to 0. -/
-theorem quiescent_counters (n : Nat) (q : Nat → Db → R) (db : Db) (evs : List Ev)
-    (hdone : ∀ i, i < n → (run n q db evs).phase i = .done) :
-    (run n q db evs).questions = n ∧ (run n q db evs).comSelect = n ∧ (run n q db evs).running = 0 := by
-  have h := inv_run n q db evs
-  refine ⟨?_, ?_, ?_⟩
-  · rw [h.questions]; apply cnt_all; intro i hi; rw [hdone i hi]; rfl
-  · rw [h.comSelect]; apply cnt_all; intro i hi; rw [hdone i hi]; rfl
-  · rw [h.running]; apply cnt_none; intro i hi; rw [hdone i hi]; rfl
+/-- **Registries are consistent at every moment of every schedule**: global `Questions` and
+`Com_select` are the sums of the sessions' own counters, `Threads_running` is the number of
+sessions inside a statement, and a session's process-list entry says `Query` exactly then. -/
+theorem registries_consistent (n : Nat) (progs : Nat → List (Stmt Db)) (db : Db) (evs : List Nat) :
+    let g := run n progs db evs
+    g.questions = sumN (fun i => (g.sess i).loc.questions) n ∧
+    g.comSelect = sumN (fun i => (g.sess i).loc.comSelect) n ∧
+    g.running = sumN (fun i => busy (g.sess i)) n ∧
+    ∀ i, (g.sess i).command = decide ((g.sess i).phase ≠ .idle) := by
+  have h := reg_foldl n progs evs (init db) (reg_init n db)
+  exact ⟨h.questions, h.comSelect, h.running, h.command⟩
 
-/-- Non-vacuity: two queries, interleaved. -/
+/-- **Schedule independence**: two schedules in which every session takes the same number of
+steps end in the same global state (store, registries, every session). -/
+theorem schedule_independent (n : Nat) (progs : Nat → List (Stmt Db)) (db : Db) (evs evs' : List Nat)
+    (h : ∀ i, i < n → occ i evs = occ i evs') :
+    run n progs db evs = run n progs db evs' := by
+  have hs : (run n progs db evs).sess = (run n progs db evs').sess := by
+    funext i
+    by_cases hi : i < n
+    · rw [(readonly_noninterference n progs db evs).2 i hi, (readonly_noninterference n progs db evs').2 i hi, h i hi]
+    · rw [outside_sessions_untouched n progs db evs i hi, outside_sessions_untouched n progs db evs' i hi]
+  have r1 := registries_consistent n progs db evs
+  have r2 := registries_consistent n progs db evs'
+  simp only at r1 r2
+  have hd : (run n progs db evs).db = (run n progs db evs').db := by
+    rw [(readonly_noninterference n progs db evs).1, (readonly_noninterference n progs db evs').1]
+  have hq : (run n progs db evs).questions = (run n progs db evs').questions := by rw [r1.1, r2.1, hs]
+  have hc : (run n progs db evs).comSelect = (run n progs db evs').comSelect := by rw [r1.2.1, r2.2.1, hs]
+  have hr : (run n progs db evs).running = (run n progs db evs').running := by rw [r1.2.2.1, r2.2.2.1, hs]
+  cases h1 : run n progs db evs
+  cases h2 : run n progs db evs'
+  rw [h1, h2] at hs hd hq hc hr
+  simp only at hs hd hq hc hr
+  subst hs hd hq hc hr
+  rfl
+
+/-- **Each query returns the same result as when run alone.** In every complete schedule, every
+session has received exactly the results of its program executed statement by statement on a
+private session (`seqRun`), ends with that run's session state, and the registries are back to
+quiescence: `Questions` grew by the number of statements, `Com_select` by the number of SELECTs
+counted sequentially, `Threads_running` is 0 and every process-list entry says `Sleep`. -/
+theorem concurrent_eq_sequential (n : Nat) (progs : Nat → List (Stmt Db)) (db : Db) (evs : List Nat)
+    (hfin : finished n progs (run n progs db evs)) :
+    (∀ i, i < n →
+      ((run n progs db evs).sess i).results.reverse = (seqRun db (progs i) initLocal).1 ∧
+      ((run n progs db evs).sess i).loc = (seqRun db (progs i) initLocal).2 ∧
+      ((run n progs db evs).sess i).command = false) ∧
+    (run n progs db evs).questions = sumN (fun i => (progs i).length) n ∧
+    (run n progs db evs).comSelect = sumN (fun i => (seqRun db (progs i) initLocal).2.comSelect) n ∧
+    (run n progs db evs).running = 0 := by
+  have reg := registries_consistent n progs db evs
+  simp only at reg
+  have per : ∀ i, i < n →
+      ((run n progs db evs).sess i).results.reverse = (seqRun db (progs i) initLocal).1 ∧
+      ((run n progs db evs).sess i).loc = (seqRun db (progs i) initLocal).2 := by
+    intro i hi
+    have hf := hfin i hi
+    have hp := (readonly_noninterference n progs db evs).2 i hi
+    have inv : SoloInv db (progs i) ((run n progs db evs).sess i) := by
+      rw [hp, solo_eq_lsteps]; exact soloInv_lsteps db (progs i) _ _ (soloInv_init db (progs i))
+    have := inv.idle (Or.inl hf.2)
+    rw [hf.1, List.take_length] at this
+    exact this
+  refine ⟨?_, ?_, ?_, ?_⟩
+  · intro i hi
+    refine ⟨(per i hi).1, (per i hi).2, ?_⟩
+    rw [reg.2.2.2 i, (hfin i hi).2]; rfl
+  · rw [reg.1]; apply sumN_congr; intro i hi
+    rw [(per i hi).2, seqRun_questions]; simp [initLocal]
+  · rw [reg.2.1]; apply sumN_congr; intro i hi; rw [(per i hi).2]
+  · rw [reg.2.2.1]; apply sumN_zero; intro i hi; simp [busy, (hfin i hi).2]
+
+/-- **Fair schedules finish**: a schedule in which every session gets at least four steps per
+statement of its program is complete (no session can be starved or blocked by another). -/
+theorem fair_schedule_finishes (n : Nat) (progs : Nat → List (Stmt Db)) (db : Db) (evs : List Nat)
+    (hfair : ∀ i, i < n → 4 * (progs i).length ≤ occ i evs) :
+    finished n progs (run n progs db evs) := by
+  intro i hi
+  rw [(readonly_noninterference n progs db evs).2 i hi, solo_eq_lsteps]
+  have := lsteps_enough db (progs i) (occ i evs) (hfair i hi)
+  exact ⟨this.2, this.1⟩
+
+/-! ### data races: the lockset argument over the footprint -/
+
+/-- FULL STATEMENT (false on the unchanged tree, see `finding_infoschema_assign_catalog_race`):
+  `∀ i j infoI infoJ a b, a ∈ footprint i infoI → b ∈ footprint j infoJ → racy a b = false`.
+**Partial**: accesses of two statements race only if both resolve an information_schema table. -/
+theorem race_free_partial (i j : Nat) (infoI infoJ : Bool) (a b : Access)
+    (ha : a ∈ footprint i infoI) (hb : b ∈ footprint j infoJ) (hguard : ¬ (infoI = true ∧ infoJ = true)) :
+    racy a b = false := by
+  by_cases hij : i = j
+  · subst hij
+    have sa : ∀ a ∈ footprint i infoI, a.sess = i := by cases infoI <;> simp [footprint]
+    have sb : ∀ b ∈ footprint i infoJ, b.sess = i := by cases infoJ <;> simp [footprint]
+    simp [racy, sa a ha, sb b hb]
+  · have aux : ∀ a ∈ footprint i infoI, ∀ b ∈ footprint j infoJ, racy a b = false := by
+      cases infoI <;> cases infoJ <;> simp [footprint, racy, Mode.isWrite, Mode.isPlain, hij] at hguard ⊢
+    exact aux a ha b hb
+
+/-- Finding (confirmed by the race detector on the unchanged tree): two sessions that resolve an
+information_schema table both execute the plain write `t.catalog = cat` on the same shared object. -/
+theorem finding_infoschema_assign_catalog_race :
+    ∃ a b, a ∈ footprint 0 true ∧ b ∈ footprint 1 true ∧ racy a b = true :=
+  ⟨⟨0, .infoTableCatalog, .plainWrite⟩, ⟨1, .infoTableCatalog, .plainWrite⟩, by decide, by decide, by decide⟩
+
+/-! ### non-vacuity -/
+
+def exProgs : Nat → List (Stmt Nat)
+  | 0 => [.setVar "a" 5, .read (fun db => toString db) true (some 0), .addVar "a" 2, .getVar "a", .sessQuestions]
+  | 1 => [.getVar "a", .divZero, .showWarnings, .useDb "d2", .curDb, .sessComSelect]
+  | _ => []
+
+def exSched : List Nat := [0, 1, 0, 0, 0, 0, 1, 1, 0, 0, 0, 0, 0, 1, 1, 0, 1, 1, 1, 1, 1, 0, 1, 1, 1, 1, 1, 1, 0, 1, 1, 0, 0, 0, 1, 0, 0, 1, 1, 1, 0, 1, 1, 0]
+
+/-- Two interleaved sessions: session 1 never sees session 0's `@a`, warnings and current
+database stay private, the registries add up, both got their sequential results. -/
 example :
-    let s := run 2 (fun i (db : Nat) => db + i) 10 [.begin 0, .begin 1, .eval 1, .eval 0, .finish 0, .finish 1]
-    s.result 0 = some 10 ∧ s.result 1 = some 11 ∧ s.questions = 2 ∧ s.running = 0 ∧ s.phase 1 = .done := by
-  decide
+    let g := run 2 exProgs 7 exSched
+    (g.sess 0).results.reverse = ["ok", "7", "ok", "i:7", "i:5"] ∧
+    (g.sess 1).results.reverse = ["null", "null", "i:1", "ok", "s:d2", "i:3"] ∧
+    g.questions = 11 ∧ g.comSelect = 5 ∧ g.running = 0 ∧ g.db = 7 ∧
+    (g.sess 0).results.reverse = (seqRun 7 (exProgs 0) initLocal).1 ∧
+    (g.sess 1).results.reverse = (seqRun 7 (exProgs 1) initLocal).1 := by
+  decide +kernel
+
+/-- The hypothesis of `concurrent_eq_sequential` / `fair_schedule_finishes` is satisfiable, and a
+prefix of the schedule shows the registries mid-flight. -/
+example : ((run 2 exProgs 7 exSched).sess 0).pc = 5 ∧ ((run 2 exProgs 7 exSched).sess 1).pc = 6 ∧
+    ((run 2 exProgs 7 (exSched.take 6)).running = 2) ∧ ((run 2 exProgs 7 (exSched.take 6)).questions = 1) ∧
+    occ 0 exSched = 20 ∧ occ 1 exSched = 24 ∧ finished 2 exProgs (run 2 exProgs 7 exSched) := by
+  refine ⟨by decide +kernel, by decide +kernel, by decide +kernel, by decide +kernel, by decide +kernel, by decide +kernel, ?_⟩
+  intro i hi
+  have : i = 0 ∨ i = 1 := by omega
+  rcases this with h | h <;> subst h <;> decide +kernel
 
 end Gms.C36
